@@ -14,10 +14,10 @@
                    kind in dict, odict (collections.OrderedDict)
    After an operation a collection leaf may have become
                  [k |-> "val",  c |-> i]           the computed value of collection i
-                 [k |-> "lazy", c |-> i, ty, kshape, meta]
-                                                   a collection that computes to the value of
-                                                   collection i; ty / kshape / meta: it has the
-                                                   type / shape of __dask_keys__ / metadata of i
+                 [k |-> "lazy", c |-> i]           a collection that computes to the value of
+                                                   collection i (an observed one also carries md,
+                                                   its type / shape of __dask_keys__ / metadata as
+                                                   one string, to be compared with collection i's)
    Field names are tied to one type each, so TLC can compare any two nodes.   *)
 EXTENDS Naturals, Sequences, FiniteSets
 
@@ -27,7 +27,7 @@ PStr(s)    == [k |-> "pstr", ps |-> s]
 SeqN(kind, xs)     == [k |-> kind, xs |-> xs]
 MapN(kind, ks, vs) == [k |-> kind, ks |-> ks, vs |-> vs]
 Val(i)     == [k |-> "val", c |-> i]
-Lazy(i)    == [k |-> "lazy", c |-> i, ty |-> TRUE, kshape |-> TRUE, meta |-> TRUE]
+Lazy(i)    == [k |-> "lazy", c |-> i]
 
 SeqKinds  == {"list", "tuple", "set", "iter", "dc", "nt"}
 MapKinds  == {"dict", "odict"}
